@@ -1,5 +1,5 @@
 (* Model/C16Run.v - case type and checker evaluated on harness-generated cases (C16) *)
-From ReqV Require Export Lib.Bytes Model.HeaderOrder Model.HeaderCollect.
+From ReqV Require Export Lib.Bytes Model.HeaderOrder Model.HeaderCollect Model.HeaderMerge.
 
 Inductive c16_case :=
 (* direct call of header.SortKeyValues(kvs, order); the slice afterwards is
@@ -9,7 +9,12 @@ Inductive c16_case :=
 | CanonCase (input obs : bytes)
 (* a request through the real client: q = what the protocol writer received (captured by the
    innermost transport wrapper), obs = the field list the origin saw, in wire order *)
-| WireCase (proto : nat) (q : creq) (obs : list line).
+| WireCase (proto : nat) (q : creq) (obs : list line)
+(* the caller's API calls (request level, client level incl. a preset's table, cookies as
+   rendered pairs, client-level order registrations) and the header map the protocol writer
+   received, sorted by key (an automatic Content-Type removed by the harness) *)
+| MergeCase (req_ops cli_ops : list hdr_op) (cookies : list bytes)
+            (regs_o regs_p : list (list bytes)) (obs : list kv).
 
 Fixpoint ascending (l : list nat) : bool :=
   match l with
@@ -38,6 +43,8 @@ Definition c16_check (c : c16_case) : bool :=
   | SortCase kvs order perm =>
       list_eqb kv_eqb (sort_key_values kvs order) (map (fun i => nth i kvs ([], [])) perm)
   | CanonCase i o => bytes_eqb (mime_key i) o
+  | MergeCase ro co cookies regs_o regs_p obs =>
+      list_eqb kv_eqb (sort_by_key (transport_hdr (apply_ops ro) (apply_ops co) cookies regs_o regs_p)) obs
   | WireCase proto q obs =>
       let order := order_list (c_hdr q) in
       match proto with
